@@ -832,6 +832,16 @@ class Probe:
             if m in ("clone", "to_owned", "cloned") and isinstance(recv, (dict, list)):
                 return copy.deepcopy(recv) if not _has_opq(recv) else _copy_keep_opq(recv)
             return recv
+        if m in ("to_digit", "is_digit") and isinstance(recv, str) and len(recv) == 1 and len(e["args"]) == 1:
+            r_ = self.ev(e["args"][0], env)
+            if isinstance(r_, int) and not isinstance(r_, bool):
+                if not 2 <= r_ <= 36:
+                    raise Panic("%s with radix %d" % (m, r_))
+                d_ = "0123456789abcdefghijklmnopqrstuvwxyz".find(recv.lower()) if recv.isascii() and recv.isalnum() else -1
+                d_ = d_ if 0 <= d_ < r_ else -1
+                if m == "is_digit":
+                    return d_ >= 0
+                return ("some", d_) if d_ >= 0 else None
         if m == "chars" and isinstance(recv, str) and not e["args"]:
             return list(recv)
         if m in ("chars", "as_str", "collect", "into_iter", "iter", "by_ref") and isinstance(recv, list):
@@ -921,6 +931,8 @@ class Probe:
                 return ()
             if m in ("extend", "append"):
                 a = self.ev(e["args"][0], env)
+                if m == "extend" and (a is None or (isinstance(a, tuple) and len(a) == 2 and a[0] == "some")):
+                    a = [] if a is None else [a[1]]  # an Option is an iterator of none or one element
                 if not isinstance(a, list):
                     raise NoEval("extend with %r" % (a,))
                 recv.extend(a)
